@@ -678,6 +678,7 @@ class CaseOut:
         self.counts: dict[str, int] = {}
         self.evals = 0
         self.nontrivial: list[str] = []
+        self.aux: dict[int, str] = {}                     # line index -> line for the unrepaired model
 
     def fail(self, sig: str, what: str, kind: str = "oracle") -> None:
         self.fails.append((kind, sig, what))
@@ -1047,6 +1048,20 @@ def check_c15(tracks, rng: random.Random, co: CaseOut, selections=None, model: b
                 if model:
                     co.model(f"C15 geff store ({kind})", " ".join(["EX", "geff", str(I.one)] + enc + enc_sel(sel)),
                              str_geff_store(S, T, I))
+        # ---------------------------------------------------------------- malformed stream
+        # a selection naming a node that is not in the graph: networkx refuses (both exporters)
+        if model and selections and not any(k == "no-malformed" for k, _ in selections):
+            unk = max([0] + [int(n) for n in g.nodes]) + 1 + rng.randrange(5)
+            bad = [unk] + [int(n) for n in list(g.nodes)[:1]]
+            for fmt, call in (("csv", lambda: export_to_csv(tracks, d / "m.csv", node_ids=set(bad))),
+                              ("geff", lambda: export_to_geff(tracks, d / "mg", node_ids=set(bad)))):
+                if fmt not in fmts:
+                    continue
+                st, r = guarded(call)
+                co.count(f"C15:malformed-selection:{fmt}:" + (type(r).__name__ if st == "err" else st))
+                real = "err:nx" if (st == "err" and isinstance(r, nx.NetworkXError)) else f"{st}:{type(r).__name__}"
+                co.model(f"C15 unknown node in selection ({fmt})",
+                         " ".join(["EX", fmt, str(I.one)] + enc + enc_sel(bad)), real)
     finally:
         shutil.rmtree(d, ignore_errors=True)
 
@@ -1316,6 +1331,8 @@ def check_c16(tracks, rng: random.Random, co: CaseOut, model: bool = True, only:
                     rr = ["?render", type(e).__name__]
                 if rr is not None:
                     real = " ".join(r_state_after(tracks, I) + rr)
+                    if code[0] == "2":  # export_to_geff: the model of the code before the repair, for replays
+                        co.aux[len(co.lines)] = " ".join(["EX", "roorig", str(I.one)] + st_enc + code[1:])
                     co.model(f"C16 {op['name']}", " ".join(["EX", "ro", str(I.one)] + st_enc + code), real)
     finally:
         shutil.rmtree(d, ignore_errors=True)
@@ -1630,6 +1647,9 @@ def replay(prop: str, replay_obj: dict) -> int:
                     print(f"--- {label}: {'agree' if same else 'DIVERGENCE'}")
                     print("   code :", real[:1500])
                     print("   model:", m[:1500])
+                    j = co.expect.index((label, real))
+                    if j in co.aux:
+                        print("   model of the exporter BEFORE the repair (D5):", _driver().run([co.aux[j]])[0][:600])
                 if not same:
                     rc = 1
             print(f"model   : {len(co.lines)} comparisons, {sum(1 for (_, r), m in zip(co.expect, outs) if r != m)} differ")
